@@ -43,6 +43,13 @@ type BoxFut<T> = Pin<Box<dyn Future<Output = T>>>;
 
 thread_local! {
     static T0: RefCell<Option<std::time::Instant>> = const { RefCell::new(None) };
+    /// the head call's deadline (ms): deadlines are also logged relative to it, so that deadlines years away
+    /// stay within the 32-bit integers of the trace specification
+    static HEAD_DL: RefCell<i64> = const { RefCell::new(0) };
+}
+const CLAMP: i64 = 2_000_000_000;
+fn rel_of(dl_ms: i64) -> i64 {
+    (dl_ms - HEAD_DL.with(|h| *h.borrow())).clamp(-CLAMP, CLAMP)
 }
 fn ms_of(i: std::time::Instant) -> i64 {
     let base = T0.with(|t| t.borrow().unwrap());
@@ -63,7 +70,8 @@ fn d_cm(m: &ClientMessage<Req>) -> Value {
             let mut v = tc(&r.context.trace_context);
             v["kind"] = json!("req");
             v["id"] = json!(r.id);
-            v["dl"] = json!(ms_of(r.context.deadline));
+            v["dl"] = json!(ms_of(r.context.deadline).clamp(-CLAMP, CLAMP));
+            v["rel"] = json!(rel_of(ms_of(r.context.deadline)));
             v
         }
         ClientMessage::Cancel { trace_context, request_id } => {
@@ -71,6 +79,7 @@ fn d_cm(m: &ClientMessage<Req>) -> Value {
             v["kind"] = json!("cancel");
             v["id"] = json!(request_id);
             v["dl"] = json!(0);
+            v["rel"] = json!(0);
             v
         }
         _ => json!({"kind": "other"}),
@@ -125,7 +134,8 @@ impl Serve for HopServe {
     async fn serve(self, ctx: context::Context, req: Req) -> Result<Resp, ServerError> {
         let mut v = tc(&ctx.trace_context);
         v["k"] = json!(self.hop);
-        v["dl"] = json!(ms_of(ctx.deadline));
+        v["dl"] = json!(ms_of(ctx.deadline).clamp(-CLAMP, CLAMP));
+        v["rel"] = json!(rel_of(ms_of(ctx.deadline)));
         emit("ChainHandlerStart", v);
         let mut guard = DropLog { hop: self.hop, finished: false };
         let out = match self.next {
@@ -316,7 +326,7 @@ impl St {
                         } else {
                             None
                         };
-                        emit("ChainYield", json!({"k": k + 1, "id": ifr.get().id, "dl": ms_of(ifr.get().context.deadline)}));
+                        emit("ChainYield", json!({"k": k + 1, "id": ifr.get().id, "dl": ms_of(ifr.get().context.deadline).clamp(-CLAMP, CLAMP)}));
                         let serve = HopServe { hop: k + 1, next, ctl: self.ctl.clone() };
                         let fut: BoxFut<()> = Box::pin(ifr.execute(serve));
                         self.hops[k].handlers.push((Some(fut), Flag::new(&format!("h{}", k + 1), true)));
@@ -411,7 +421,7 @@ impl St {
             let busy = self.call.is_some() || self.hops.iter().any(|h| h.handlers.iter().any(|x| x.0.is_some()));
             let target = match self.next_due() {
                 Some(t) if t > now => Some(t),
-                _ if busy && (self.head_dl as u64) >= now => Some(self.head_dl as u64 + 1),
+                _ if busy && self.head_dl < CLAMP && (self.head_dl as u64) >= now => Some(self.head_dl as u64 + 1),
                 _ => None,
             };
             match target {
@@ -437,6 +447,7 @@ impl St {
                 let tr = step["tr"].as_u64().unwrap_or(77);
                 let sampled = step["sampled"].as_bool().unwrap_or(false);
                 self.head_dl = dl;
+                HEAD_DL.with(|h| *h.borrow_mut() = dl);
                 let mut ctx = context::current();
                 ctx.deadline = self.clock.std_at(dl);
                 ctx.trace_context = trace::Context {
@@ -445,7 +456,7 @@ impl St {
                     sampling_decision: if sampled { trace::SamplingDecision::Sampled } else { trace::SamplingDecision::Unsampled },
                 };
                 let ch = self.head.clone().unwrap();
-                emit("ChainStart", json!({"depth": self.depth, "dl": dl, "tr": format!("{:x}", tr), "span": "7", "sampled": sampled,
+                emit("ChainStart", json!({"depth": self.depth, "dl": dl.clamp(-CLAMP, CLAMP), "far": dl > CLAMP, "tr": format!("{:x}", tr), "span": "7", "sampled": sampled,
                                           "delays": self.links.iter().map(|l| l.delay).collect::<Vec<_>>()}));
                 self.call = Some(Box::pin(async move { ch.call(ctx, "q".to_string()).await }));
                 self.cflag.set.store(true, std::sync::atomic::Ordering::SeqCst);
@@ -498,7 +509,8 @@ pub fn run(a: &Args) -> Value {
     for i in 0..a.random {
         let depth = rng.gen_range(1..=3u64);
         let delays: Vec<u64> = (0..depth).map(|_| [0u64, 0, 1, 3][rng.gen_range(0..4)]).collect();
-        let dl = [5i64, 20, 1000][rng.gen_range(0..3)];
+        // 3 and 30 years: beyond the one-year cap of the deadline timers
+        let dl = [5i64, 20, 1000, 1000, 94_608_000_000, 946_080_000_000][rng.gen_range(0..6)];
         let mut steps = vec![json!({"a":"Start","dl":dl,"tr":rng.gen_range(1..1000u64),"sampled":rng.gen_bool(0.5)})];
         let n = rng.gen_range(1..10);
         let mut abandoned = false;
@@ -523,6 +535,11 @@ pub fn run(a: &Args) -> Value {
             } else {
                 json!({"a":"CompleteLeaf"})
             });
+        }
+        if dl > CLAMP {
+            // nothing runs the clock to a deadline years away: the scenario ends the chain itself
+            steps.push(json!({"a": "Settle"}));
+            steps.push(if abandoned { json!({"a": "Settle"}) } else if rng.gen_bool(0.5) { json!({"a": "CompleteLeaf"}) } else { json!({"a": "Abandon"}) });
         }
         scheds.push(Sched { id: format!("r{}", i), cfg: json!({"depth": depth, "delays": delays, "gated": gated}), steps, expect: None });
     }
